@@ -7,7 +7,7 @@ import Rivaas.Lemmas.BindPath
 Driver for C04. Case line:
   <id> <G|T|B> <tag 0..4> <maxDepth> <maxSlice> <maxMap> <csv> <baseAuto> <Ty> <init Val>
        <nkeys> { <key> <nvals> <val>* }*        (entry B: <nsrc> { <tag> <nkeys> { <key> <nvals> <val>* }* }*)
-       <ntbl> { <string> <i10> <i0> <u10> <u0> <f> <t> <d> <j> }*
+       <ntbl> { <string> <i10> <i0> <u10> <u0> <f> <t> <d> <j> <nopq> { <kind> <rendering> }* }*
        => O <Val> | E <n> <name>* <D|L|M|C> | X
   Ty  ::= P <code> | R Ty | L Ty | M Ty | T <n> { <name> <exported> <anon> <q> <p> <f> <h> <c> <default> Ty }*
   Val ::= i <int> | u <nat> | f <bits> | b <0|1> | s <str> | t <str> | n | p Val | l <n> Val* | m <n> {<key> Val}* | S <n> Val*
@@ -21,7 +21,12 @@ def pPrim : P Prim := do
   | "i0" => pure (.int 0) | "i8" => pure (.int 8) | "i16" => pure (.int 16) | "i32" => pure (.int 32) | "i64" => pure (.int 64)
   | "u0" => pure (.uint 0) | "u8" => pure (.uint 8) | "u16" => pure (.uint 16) | "u32" => pure (.uint 32) | "u64" => pure (.uint 64)
   | "f32" => pure .f32 | "f64" => pure .f64 | "b" => pure .bool | "s" => pure .str | "t" => pure .time | "d" => pure .dur
-  | _ => failure
+  | t =>
+    -- o<k>: a leaf type with its own text form (url.URL, net.IP, net.IPNet, regexp.Regexp, TextUnmarshaler types)
+    if t.startsWith "o" then match (t.drop 1).toNat? with
+      | some k => pure (.opq k)
+      | none => failure
+    else failure
 
 partial def pTy : P Ty := do
   let k ← tok
@@ -61,7 +66,8 @@ def pEntry : P (Bytes × PEntry) := do
   let t ← opt str
   let d ← opt int
   let j ← opt (list (do let k ← str; let v ← str; pure (k, v)))
-  pure (s, { i10 := i10, i0 := i0, u10 := u10, u0 := u0, f := f, t := t, d := d, j := j })
+  let o ← list (do let k ← nat; let r ← str; pure (k, r))
+  pure (s, { i10 := i10, i0 := i0, u10 := u10, u0 := u0, f := f, t := t, d := d, j := j, o := o })
 
 def pTag : P Tag := do
   let n ← nat
